@@ -14,7 +14,7 @@ func init() {
 		ID: "C08",
 		Explanation: "Decided (on all paths of the accept path): ParseCIDR never returns an empty list without an error (NONEMPTY-PARSE); a pool's address groups are " +
 			"written only by addressPoolFromCR, from a successful ParseCIDR of every written entry, and the pool's CIDR list receives the same networks " +
-			"(PARSE-PRODUCER); in poolsFor a CIDR enters the global list only after it was compared by cidrsOverlap with every CIDR accepted so far and with the node " +
+			"(PARSE-PRODUCER); in poolsFor a CIDR enters the global list only after it was compared (containment in both directions) with every CIDR accepted so far and with the node " +
 			"IPs of its own family, every CIDR of every pool is examined, and a pool is stored only behind the duplicate-name test (VALIDATED-ACCUMULATOR); an " +
 			"advertisement is attached to a pool only behind validateBGPAdvPerPool (BGP) / the duplicate filter (L2), to all pools exactly when it names and selects " +
 			"none, otherwise to the named and selected pools (ATTACH); validateBGPAdvPerPool accepts only after the aggregation-length test on every address group and " +
@@ -150,7 +150,7 @@ func c08Parse(p *chk.Prog, r *chk.Report) {
 }
 
 func c08Accumulator(p *chk.Prog, r *chk.Report) {
-	x := r.Rule("VALIDATED-ACCUMULATOR", "B path (for-all loops)", "in config.poolsFor, for every pool of resources.Pools and every cidr of pool.CIDR (no skip, no break): allCIDRs = append(allCIDRs, cidr) is reached only after a loop over all of allCIDRs in which cidrsOverlap(cidr, m) was false for every m, and a loop over k8snodes.NodeIPsForFamily(resources.Nodes, ipfamily.ForCIDR(cidr)) in which cidr.Contains(nodeIP) was false; pools[p.Name] = pool is dominated by pools[p.Name] == nil and follows the CIDR loop; cidrsOverlap tests containment both ways", 7)
+	x := r.Rule("VALIDATED-ACCUMULATOR", "B path (for-all loops)", "in config.poolsFor, for every pool of resources.Pools and every cidr of pool.CIDR (no skip, no break): allCIDRs = append(allCIDRs, cidr) is reached only after a loop over all of allCIDRs in which the overlap test (neither CIDR contains the other)(cidr, m) was false for every m, and a loop over k8snodes.NodeIPsForFamily(resources.Nodes, ipfamily.ForCIDR(cidr)) in which cidr.Contains(nodeIP) was false; pools[p.Name] = pool is dominated by pools[p.Name] == nil and follows the CIDR loop; the overlap test (neither CIDR contains the other) tests containment both ways", 7)
 	f := need(x, p, cfgPkg, "", "poolsFor")
 	if f == nil {
 		return
@@ -194,7 +194,9 @@ func c08Accumulator(p *chk.Prog, r *chk.Report) {
 			continue
 		}
 		m := rangeVal(f, rs)
-		guard := chk.GAnyOf(g.GPat(false, "cidrsOverlap(C, M)", chk.H("C", cidr), chk.H("M", m)), g.GPat(false, "cidrsOverlap(M, C)", chk.H("C", cidr), chk.H("M", m)))
+		// "do not overlap": neither contains the other (the one-line helper that names the test is expanded by the
+		// normalisation, so the call and the spelt-out form are both this)
+		guard := chk.GAnd(g.GPat(false, "cidrContainsCIDR(C, M)", chk.H("C", cidr), chk.H("M", m)), g.GPat(false, "cidrContainsCIDR(M, C)", chk.H("C", cidr), chk.H("M", m)))
 		if w := forallBefore(f, g, rs, guard, app); w == "" {
 			okOverlap = true
 		} else {
@@ -228,15 +230,6 @@ func c08Accumulator(p *chk.Prog, r *chk.Report) {
 		x.Check("poolsFor:store:after-cidr-checks", s.Pos(), why == "", "", "a pool is stored although one of its CIDRs was not checked and accepted (skipped, or the loop left early): "+why)
 	}
 	x.Check("poolsFor:every-pool", poolLoop.Pos(), !loopHasBreak(g, poolLoop) && len(stores) == 1 && !loopSkipsWithout(g, poolLoop, func(n ast.Node) bool { return n == stores[0].Top }, chk.NoGuard), "", "a pool can be skipped")
-	co := need(x, p, cfgPkg, "", "cidrsOverlap")
-	if co != nil {
-		ok := false
-		for _, rt := range co.Graph().Returns() {
-			rr := retResults(rt)
-			ok = len(rr) == 1 && co.MatchWith("cidrContainsCIDR(A, B) || cidrContainsCIDR(B, A)", rr[0], chk.H("A", isParamIdx(co, 0)), chk.H("B", isParamIdx(co, 1))) != nil
-		}
-		x.Check("cidrsOverlap:both-directions", co.Pos(), ok, "", "cidrsOverlap does not test containment in both directions")
-	}
 	nf := need(x, p, "internal/k8s/nodes", "", "NodeIPsForFamily")
 	if nf != nil {
 		ng := nf.Graph()
@@ -342,6 +335,7 @@ func c08Attach(p *chk.Prog, r *chk.Report) {
 
 func c08AdvValid(p *chk.Prog, r *chk.Report) {
 	x := r.Rule("ADV-VALID", "B path (for-all loops)", "validateBGPAdvPerPool returns nil only after (a) a loop over all address groups of the pool in which, for non-empty groups, the aggregation length of the group's family (V6 when cidrs[0] is not IPv4) is not below lowestMask(group), and (b) a loop over all advertisements already attached in which a different local preference requires advertisementsAreCompatible; advertisementsAreCompatible returns true only for different aggregation lengths, for two non-empty peer lists without a common peer, or after no common node was found, and false for a common node", 8)
+	minInPlace := false
 	f := need(x, p, cfgPkg, "", "validateBGPAdvPerPool")
 	if f != nil {
 		g := f.Graph()
@@ -388,7 +382,16 @@ func c08AdvValid(p *chk.Prog, r *chk.Report) {
 				return n4 == 1 && n6 == 1
 			}
 			guard := chk.GAnyOf(
-				g.GPat(false, "M < L", chk.H("M", maxLen), chk.H("L", definedBy(g, "lowestMask(G)", chk.H("G", grp)))),
+				g.GPat(false, "M < L", chk.H("M", maxLen), chk.H("L", func(e ast.Expr) bool {
+					if definedBy(g, "lowestMask(G)", chk.H("G", grp))(e) {
+						return true
+					}
+					if c08MinMaskInPlace(f, g, e, grp) {
+						minInPlace = true
+						return true
+					}
+					return false
+				})),
 				g.GPat(true, "len(G) == 0", chk.H("G", grp)))
 			if len(nilRets) == 1 {
 				whyA = forallBefore(f, g, rs, guard, nilRets[0])
@@ -413,7 +416,12 @@ func c08AdvValid(p *chk.Prog, r *chk.Report) {
 		}
 		x.Check("validateBGPAdvPerPool:localpref-against-every-attached", f.Pos(), okB, "", "two advertisements with different local preferences can be accepted on one pool without the compatibility test ("+whyB+")")
 	}
-	lm := need(x, p, cfgPkg, "", "lowestMask")
+	lm := p.LookupFunc(cfgPkg, "", "lowestMask")
+	if lm == nil && minInPlace {
+		x.OK("lowestMask:minimum-over-all", 0, "the minimum is computed in place in validateBGPAdvPerPool (decided there)")
+	} else if lm == nil {
+		lm = need(x, p, cfgPkg, "", "lowestMask")
+	}
 	if lm != nil {
 		g := lm.Graph()
 		ok := false
@@ -577,4 +585,67 @@ func c08Dedup(p *chk.Prog, r *chk.Report) {
 		}
 	}
 	x.Check("containsAdvertisement:has-true", f.Pos(), n > 0, "", "containsAdvertisement never reports a duplicate")
+}
+
+// c08MinMaskInPlace: e is a local that holds the smallest prefix length of the networks of the group: initialised with
+// the length of one of them (an element of the group), and lowered inside a loop over the group (or the group without
+// its first element) exactly when an element's length is smaller (`if s < lowest { lowest = s }`, either orientation);
+// the loop has no break and ends before the use.
+func c08MinMaskInPlace(f *chk.Fn, g *chk.Graph, e ast.Expr, grp func(ast.Expr) bool) bool {
+	id, ok := ast.Unparen(e).(*ast.Ident)
+	if !ok {
+		return false
+	}
+	l := f.ObjOf(id)
+	if _, isVar := l.(*types.Var); !isVar {
+		return false
+	}
+	inGroup := func(x ast.Expr) bool {
+		if grp(x) {
+			return true
+		}
+		if sl, isSl := ast.Unparen(f.Resolve(x)).(*ast.SliceExpr); isSl && sl.High == nil && grp(sl.X) {
+			return true // G[1:]: the first element is the initial value
+		}
+		return false
+	}
+	el := elementOf(f, grp)
+	sizeOf := func(x ast.Expr, of func(ast.Expr) bool) bool {
+		xid, isId := ast.Unparen(x).(*ast.Ident)
+		if !isId {
+			return false
+		}
+		rhs, idx := g.DefOf(xid, g.FactSite(xid))
+		return rhs != nil && idx == 0 && f.MatchWith("C.Mask.Size()", rhs, chk.H("C", of)) != nil
+	}
+	nInit, nLower := 0, 0
+	for _, n := range assignsTo(f, l) {
+		as, isAs := n.(*ast.AssignStmt)
+		if !isAs {
+			return false
+		}
+		rs, _ := f.LoopOf(as).(*ast.RangeStmt)
+		if rs != nil && inGroup(rs.X) {
+			// lowering inside the loop
+			if len(as.Lhs) != 1 || len(as.Rhs) != 1 || !sizeOf(as.Rhs[0], rangeVal(f, rs)) {
+				return false
+			}
+			sites := g.Find(func(m ast.Node) bool { return m == ast.Node(as) })
+			sz := as.Rhs[0]
+			same := func(x ast.Expr) bool { return f.SameExpr(x, sz) }
+			if len(sites) != 1 || loopHasBreak(g, rs) || rs.End() > id.Pos() ||
+				!(g.Dominated(sites[0], g.GPat(true, "S < L", chk.H("S", same), chk.H("L", f.IsObj(l)))) &&
+					!loopSkipsWithout(g, rs, func(m ast.Node) bool { return m == sites[0].Top }, g.GPat(false, "S < L", chk.H("S", same), chk.H("L", f.IsObj(l))))) {
+				return false
+			}
+			nLower++
+			continue
+		}
+		// initial value: the size of an element of the group
+		if len(as.Rhs) != 1 || f.MatchWith("C.Mask.Size()", as.Rhs[0], chk.H("C", el)) == nil || as.Pos() > id.Pos() {
+			return false
+		}
+		nInit++
+	}
+	return nInit == 1 && nLower == 1
 }
